@@ -89,20 +89,14 @@ fn c18_conv_metadata() {
 }
 
 // ================================================================ (b)+(c) log -> tracing
+//
+// The record level is case-split (one harness per level, `l1`..`l5`): tracing-log keeps one
+// lazily initialised key set per level, so a symbolic level is a path choice through five
+// `Lazy` statics (measured: 120 s / 500 s per harness and 23 GB for a concrete playback,
+// against 35 s / 9 GB per level). Every harness starts cold: the record under test is the
+// one that initialises its level's keys. Everything else about the record is symbolic.
 
 static C: Rec = Rec::new();
-
-/// Forces the five per-level `Lazy<Fields>` of tracing-log through the public API with
-/// concrete levels, so that the harness proper starts from the steady state "field keys
-/// initialised" (the cold start, where the record itself initialises them, is
-/// `c18_bridge_tracer_cold`).
-fn warm() {
-    let _ = log::Metadata::builder().level(log::Level::Error).target("w").build().as_trace();
-    let _ = log::Metadata::builder().level(log::Level::Warn).target("w").build().as_trace();
-    let _ = log::Metadata::builder().level(log::Level::Info).target("w").build().as_trace();
-    let _ = log::Metadata::builder().level(log::Level::Debug).target("w").build().as_trace();
-    let _ = log::Metadata::builder().level(log::Level::Trace).target("w").build().as_trace();
-}
 
 #[derive(Clone, Copy, PartialEq)]
 enum Entry {
@@ -125,16 +119,9 @@ struct Outcome {
     has_module: bool,
 }
 
-/// Builds one symbolic record, sends it through `entry`, returns what the oracle needs.
-fn bridge(entry: Entry) -> Outcome {
-    bridge_from(entry, true)
-}
-
-fn bridge_from(entry: Entry, warm_start: bool) -> Outcome {
-    if warm_start {
-        warm();
-    }
-    let rank = any_level_rank();
+/// Builds one record (level `rank`, everything else symbolic), installs the recording
+/// collector with a symbolic verdict table, sends the record through `entry`.
+fn bridge(entry: Entry, rank: u8) -> Outcome {
     let mut tb = [0u8; SMAX];
     let target = any_ascii(&mut tb);
     let mut fb = [0u8; SMAX];
@@ -180,46 +167,46 @@ fn bridge_from(entry: Entry, warm_start: bool) -> Outcome {
     }
 }
 
-/// what every bridge harness asserts once the oracle has said whether the record is due
-fn check_bridge(o: &Outcome, want: bool) {
-    let events = C.events.load(Relaxed);
-    // exactly one event iff due, none otherwise
-    assert!(events == if want { 1 } else { 0 });
-    // every event the collector saw is a log event (nothing else was invented)
-    assert!(C.log_events.load(Relaxed) == events);
-    // the collector was only ever asked about the record's own level and target
-    assert!(C.asked_other.load(Relaxed) == 0);
-    if want {
-        assert!(C.asked.load(Relaxed) >= 1);
-    }
-    // (c) normalised metadata == the record's
-    let bad = C.bad.load(Relaxed);
-    assert!(bad & BAD_NOT_LOG == 0);
-    assert!(bad & BAD_NO_NORM == 0);
-    assert!(bad & BAD_RAW_LEVEL == 0);
-    assert!(bad & BAD_TARGET == 0);
-    assert!(bad & BAD_LEVEL == 0);
-    assert!(bad & BAD_FILE == 0);
-    assert!(bad & BAD_LINE == 0);
-    assert!(bad & BAD_MODULE == 0);
-    assert!(bad & BAD_MESSAGE == 0);
-    assert!(bad == 0);
-    if want {
-        assert!((C.has_file.load(Relaxed) != 0) == o.has_file);
-    }
+/// What every bridge harness asserts once the oracle has said whether the record is due.
+/// A macro, so that the assertions are properties of the same function as the covers.
+macro_rules! check_bridge {
+    ($o:expr, $want:expr) => {{
+        let (o, want): (&Outcome, bool) = (&$o, $want);
+        let events = C.events.load(Relaxed);
+        // exactly one event iff due, none otherwise
+        assert!(events == if want { 1 } else { 0 });
+        // every event the collector saw is a log event (nothing else was invented)
+        assert!(C.log_events.load(Relaxed) == events);
+        // the collector was only ever asked about the record's own level and target
+        assert!(C.asked_other.load(Relaxed) == 0);
+        if want {
+            assert!(C.asked.load(Relaxed) >= 1);
+        }
+        // (c) normalised metadata == the record's
+        let bad = C.bad.load(Relaxed);
+        assert!(bad & BAD_NOT_LOG == 0);
+        assert!(bad & BAD_NO_NORM == 0);
+        assert!(bad & BAD_RAW_LEVEL == 0);
+        assert!(bad & BAD_TARGET == 0);
+        assert!(bad & BAD_LEVEL == 0);
+        assert!(bad & BAD_FILE == 0);
+        assert!(bad & BAD_LINE == 0);
+        assert!(bad & BAD_MODULE == 0);
+        assert!(bad & BAD_MESSAGE == 0);
+        assert!(bad == 0);
+        if want {
+            assert!((C.has_file.load(Relaxed) != 0) == o.has_file);
+        }
+    }};
 }
 
 /// LogTracer::new() with the tracing max level at TRACE: the collector's own verdict on
 /// the record's level and target decides.
-#[kani::proof]
-#[kani::unwind(16)]
-#[kani::stub(std::rt::thread_cleanup, noop)]
-#[kani::stub(core::fmt::write, fmt_write_stub)]
-fn c18_bridge_tracer() {
+fn tracer_case(rank: u8) {
     tracing_core::__verif::set_max(LevelFilter::TRACE);
-    let o = bridge(Entry::Tracer);
+    let o = bridge(Entry::Tracer, rank);
     let want = C.verdict(o.rank, o.class);
-    check_bridge(&o, want);
+    check_bridge!(o, want);
     kani::cover!(want); // delivered
     kani::cover!(!want); // suppressed
     kani::cover!(want && o.class == 0); // a record whose own target is "log"
@@ -230,16 +217,11 @@ fn c18_bridge_tracer() {
     kani::cover!(want && o.has_line && !o.has_module);
 }
 
-/// `format_trace` (no level gate of its own)
-#[kani::proof]
-#[kani::unwind(16)]
-#[kani::stub(std::rt::thread_cleanup, noop)]
-#[kani::stub(core::fmt::write, fmt_write_stub)]
-fn c18_bridge_format_trace() {
-    // deliberately left at its initial OFF: format_trace does not consult the max level
-    let o = bridge(Entry::FormatTrace);
+/// `format_trace` (no level gate of its own: the max level stays at its initial OFF)
+fn format_trace_case(rank: u8) {
+    let o = bridge(Entry::FormatTrace, rank);
     let want = C.verdict(o.rank, o.class);
-    check_bridge(&o, want);
+    check_bridge!(o, want);
     kani::cover!(want);
     kani::cover!(!want);
     kani::cover!(want && o.has_file && o.has_module && o.has_line);
@@ -247,49 +229,58 @@ fn c18_bridge_format_trace() {
 }
 
 /// symbolic tracing max level: records more verbose than it never reach the collector
-#[kani::proof]
-#[kani::unwind(16)]
-#[kani::stub(std::rt::thread_cleanup, noop)]
-#[kani::stub(core::fmt::write, fmt_write_stub)]
-fn c18_bridge_tracer_max() {
+fn tracer_max_case(rank: u8) {
     let m = any_filter_rank();
     tracing_core::__verif::set_max(t_filter(m));
-    let o = bridge(Entry::Tracer);
+    let o = bridge(Entry::Tracer, rank);
     let want = o.rank <= m && C.verdict(o.rank, o.class);
-    check_bridge(&o, want);
+    check_bridge!(o, want);
     if o.rank > m {
         assert!(C.asked.load(Relaxed) == 0);
     }
-    kani::cover!(want && m < 5);
-    kani::cover!(!want && o.rank > m && C.verdict(o.rank, o.class)); // cut by the max level
+    kani::cover!(want && m == o.rank); // boundary: max == level
+    kani::cover!(!want && m + 1 == o.rank && C.verdict(o.rank, o.class)); // cut by the max level, one below
     kani::cover!(!want && o.rank <= m); // cut by the collector
     kani::cover!(m == 0);
 }
 
 /// ignore list with one prefix, through `Builder::init` and the installed global logger
-#[kani::proof]
-#[kani::unwind(16)]
-#[kani::stub(std::rt::thread_cleanup, noop)]
-#[kani::stub(core::fmt::write, fmt_write_stub)]
-fn c18_bridge_ignore() {
+fn ignore_case(rank: u8) {
     tracing_core::__verif::set_max(LevelFilter::TRACE);
     let f = any_filter_rank();
-    let o = bridge(Entry::IgnoreAb(f));
+    let o = bridge(Entry::IgnoreAb(f), rank);
     let want = !o.ignored && C.verdict(o.rank, o.class);
-    check_bridge(&o, want);
+    check_bridge!(o, want);
     if o.ignored {
         assert!(C.asked.load(Relaxed) == 0);
     }
     // `init` publishes the builder's filter as `log`'s max level (which the `log!`
     // macros, not `Log::log`, consult)
     assert!(log::max_level() == l_filter(f));
-    kani::cover!(want && f == 0);
     kani::cover!(o.ignored && C.verdict(o.rank, o.class)); // ignored although accepted
     kani::cover!(want && o.class == 1); // starts with 'a' but not with "ab"
     kani::cover!(!want && !o.ignored);
     kani::cover!(want && o.has_file);
     kani::cover!(want && !o.has_file);
+    kani::cover!(want && f == 0);
 }
+
+macro_rules! per_level {
+    ($case:ident: $($name:ident = $rank:expr),*) => {$(
+        #[kani::proof]
+        #[kani::unwind(16)]
+        #[kani::stub(std::rt::thread_cleanup, noop)]
+        #[kani::stub(core::fmt::write, fmt_write_stub)]
+        fn $name() {
+            $case($rank);
+        }
+    )*};
+}
+
+per_level!(tracer_case: c18_bridge_tracer_l1 = 1, c18_bridge_tracer_l2 = 2, c18_bridge_tracer_l3 = 3, c18_bridge_tracer_l4 = 4, c18_bridge_tracer_l5 = 5);
+per_level!(format_trace_case: c18_bridge_format_trace_l1 = 1, c18_bridge_format_trace_l2 = 2, c18_bridge_format_trace_l3 = 3, c18_bridge_format_trace_l4 = 4, c18_bridge_format_trace_l5 = 5);
+per_level!(tracer_max_case: c18_bridge_max_l1 = 1, c18_bridge_max_l2 = 2, c18_bridge_max_l3 = 3, c18_bridge_max_l4 = 4, c18_bridge_max_l5 = 5);
+per_level!(ignore_case: c18_bridge_ignore_l1 = 1, c18_bridge_ignore_l2 = 2, c18_bridge_ignore_l3 = 3, c18_bridge_ignore_l4 = 4, c18_bridge_ignore_l5 = 5);
 
 /// vacuity twin of the bridge harnesses: a delivered record with all locations present
 #[kani::proof]
@@ -298,26 +289,10 @@ fn c18_bridge_ignore() {
 #[kani::stub(core::fmt::write, fmt_write_stub)]
 fn c18_reach() {
     tracing_core::__verif::set_max(LevelFilter::TRACE);
-    let o = bridge(Entry::Tracer);
+    let o = bridge(Entry::Tracer, 2);
     kani::assume(C.events.load(Relaxed) == 1 && o.has_file && o.has_line && o.has_module && o.class == 1);
     kani::assume(C.bad.load(Relaxed) == 0);
     assert!(false);
-}
-
-/// cold start: the per-level field keys are initialised lazily by the record itself
-#[kani::proof]
-#[kani::unwind(16)]
-#[kani::stub(std::rt::thread_cleanup, noop)]
-#[kani::stub(core::fmt::write, fmt_write_stub)]
-fn c18_bridge_tracer_cold() {
-    tracing_core::__verif::set_max(LevelFilter::TRACE);
-    let o = bridge_from(Entry::Tracer, false);
-    let want = C.verdict(o.rank, o.class);
-    check_bridge(&o, want);
-    kani::cover!(want);
-    kani::cover!(!want);
-    kani::cover!(want && o.has_file);
-    kani::cover!(want && !o.has_file);
 }
 
 // ================================================================ (d) tracing -> log
